@@ -226,11 +226,11 @@ var invalidStrings = []string{"\xff", "a\xc0\x80", "\x80", "\xe2\x82", "\xed\xa0
 func (g *gen) str() string {
 	k := g.r.Intn(100)
 	switch {
-	case k < 3 && !g.opt.Plain:
+	case k < 10 && !g.opt.Plain:
 		return rng.Pick(g.r, hardStrings) + rng.Pick(g.r, astralStrings)
-	case k < 6 && !g.opt.Plain:
+	case k < 20 && !g.opt.Plain:
 		return rng.Pick(g.r, ufffdStrings) + rng.Pick(g.r, hardStrings)
-	case k < 8 && g.opt.Hostile && !g.opt.Plain:
+	case k < 26 && g.opt.Hostile:
 		return rng.Pick(g.r, hardStrings) + rng.Pick(g.r, invalidStrings)
 	case k < 30:
 		// random code points from interesting ranges
